@@ -182,10 +182,6 @@ def acc_line(variant, lvl, pk, sig, guard="gen"):
     return "verif.acc %s %d %s %s %s" % (variant, lvl, guard, " ".join(model_pk(pk)), " ".join(model_sig(variant, sig)))
 
 
-def trav_line(variant, lvl, pk, sig):
-    return "verif.trav %s %d %s %s" % (variant, lvl, " ".join(model_pk(pk)), " ".join(model_sig(variant, sig)))
-
-
 def dec_line(variant, lvl, pk, sig, kv, guard="gen", checks="gen"):
     """decision-model op from the tapped values of one C run (missing values default to 0: the model only consults
     them at stages the C code reached, and the stage is compared too)"""
